@@ -11,6 +11,7 @@ import (
 	"go/types"
 	"os"
 	"path/filepath"
+	"reflect"
 	"sort"
 	"strings"
 
@@ -362,6 +363,16 @@ func skeleton(p *pkgFiles) []caseFacts {
 			return false
 		})
 	})
+	// canonical order: by first label (the order of the `case` clauses in the source carries no meaning; a `fallthrough`
+	// names its target by position, so it is resolved to the label of the following clause first)
+	for i := range res {
+		for j, t := range res[i].targets {
+			if t == "FALLTHROUGH" && i+1 < len(res) && len(res[i+1].labels) > 0 {
+				res[i].targets[j] = "FALLTHROUGH:" + res[i+1].labels[0]
+			}
+		}
+	}
+	sort.SliceStable(res, func(a, b int) bool { return strings.Join(res[a].labels, ",") < strings.Join(res[b].labels, ",") })
 	return res
 }
 
@@ -400,12 +411,14 @@ func baseCopies(p *pkgFiles) []string {
 					})
 				}
 				if len(copies) > 0 {
+					sort.Strings(copies) // independent assignments: their order carries no meaning
 					res = append(res, fmt.Sprintf("(%s, %s)", leanStr(label), leanStrList(copies)))
 				}
 			}
 			return false
 		})
 	})
+	sort.Strings(res)
 	return res
 }
 
@@ -939,6 +952,79 @@ func costSitesTyped(p *pkgFiles, info *types.Info) []string {
 	return res
 }
 
+// ---- option effects, executed ------------------------------------------------------------------------------
+//
+// For every public option constructor: build a parser / profile with that option alone (representative argument) and
+// report the names of the fields of the executed options whose value differs from the default's. Behavioural, so it
+// does not depend on how the constructors are written (closures, a table of appliers, …).
+func fieldValue(v reflect.Value) string {
+	switch v.Kind() {
+	case reflect.Func:
+		return leanBool(!v.IsNil())
+	case reflect.Ptr:
+		if v.IsNil() {
+			return "nil"
+		}
+		if ps, ok := v.Interface().(*url.PercentEncodeSet); ok {
+			return setTok(ps)
+		}
+		return "ptr"
+	case reflect.Map:
+		if m, ok := v.Interface().(map[string]string); ok {
+			return schemesTok(m)
+		}
+	}
+	return fmt.Sprint(v.Interface())
+}
+
+func changedFields(def, got interface{}, skip string) []string {
+	d, g := reflect.ValueOf(def), reflect.ValueOf(got)
+	var res []string
+	for i := 0; i < d.NumField(); i++ {
+		n := d.Type().Field(i).Name
+		if n == skip {
+			continue
+		}
+		if fieldValue(d.Field(i)) != fieldValue(g.Field(i)) {
+			res = append(res, n)
+		}
+	}
+	return res
+}
+
+func parserOptionEffects() []string {
+	def, _ := url.VerifOptions(url.NewParser())
+	var res []string
+	for i, sp := range optSpecs {
+		c := cfgFromMask(NewRand(7), 1<<uint(i))
+		res = append(res, fmt.Sprintf("(%s, %s)", leanStr("With"+sp.Name), leanStrList(changedFields(def, c.Opts, ""))))
+	}
+	return res
+}
+
+func canonOptionEffects() []string {
+	def, _ := canonicalizer.VerifProfileOf(canonicalizer.New())
+	defInner, _ := url.VerifOptions(def.Parser)
+	var res []string
+	one := func(name string, o url.ParserOption) {
+		v, _ := canonicalizer.VerifProfileOf(canonicalizer.New(o))
+		ch := changedFields(def, v, "Parser")
+		inner, _ := url.VerifOptions(v.Parser)
+		for _, f := range changedFields(defInner, inner, "") {
+			ch = append(ch, "Parser."+f)
+		}
+		res = append(res, fmt.Sprintf("(%s, %s)", leanStr(name), leanStrList(ch)))
+	}
+	one("WithRemoveUserInfo", canonicalizer.WithRemoveUserInfo())
+	one("WithRemovePort", canonicalizer.WithRemovePort())
+	one("WithRemoveFragment", canonicalizer.WithRemoveFragment())
+	one("WithRepeatedPercentDecoding", canonicalizer.WithRepeatedPercentDecoding())
+	one("WithDefaultScheme", canonicalizer.WithDefaultScheme("https"))
+	one("WithSortQuery(SortKeys)", canonicalizer.WithSortQuery(canonicalizer.SortKeys))
+	one("WithSortQuery(SortParameter)", canonicalizer.WithSortQuery(canonicalizer.SortParameter))
+	return res
+}
+
 // ---- tables (executed) ------------------------------------------------------------------------------------------------
 
 func rangesOf(f func(rune) bool) string {
@@ -987,6 +1073,8 @@ func factsCommand(args []string) bool {
 	w("baseCopies", "List (String × List String)", leanList(baseCopies(urlPkg)))
 	w("parserOptionWrites", "List (String × List String)", leanList(optionWrites(urlPkg, map[string]bool{"o": true})))
 	w("canonOptionWrites", "List (String × List String)", leanList(optionWrites(canonPkg, map[string]bool{"p": true})))
+	w("parserOptionEffects", "List (String × List String)", leanList(parserOptionEffects()))
+	w("canonOptionEffects", "List (String × List String)", leanList(canonOptionEffects()))
 	w("profileOptions", "List (String × List String)", leanList(profileOptions(canonPkg)))
 	w("globalWritesUrl", "List (String × String × String)", leanList(globalWrites(urlPkg)))
 	w("globalWritesCanon", "List (String × String × String)", leanList(globalWrites(canonPkg)))
